@@ -9,6 +9,7 @@ use std::rc::Rc;
 
 use quick_xml::errors::{Error, IllFormedError};
 use quick_xml::events::Event;
+use quick_xml::name::NamespaceError;
 
 use crate::common::*;
 use crate::core::{guard, PanicKind, Scenario, Stats, Tier, Violation};
@@ -139,6 +140,9 @@ impl Scenario for Skip {
         }
         if rng.chance(1, 6) {
             gen_skip_elem(rng, 1, &mut toks, max + 6);
+        }
+        if rng.chance(1, 12) {
+            p.note = format!("stretched: {}", stretch_tokens(rng, &mut toks, true));
         }
         p.toks = toks;
         p.sync_doc();
@@ -440,13 +444,38 @@ struct Scope {
     decls: Vec<(String, String)>,
 }
 
+/// "the xml and xmlns prefixes are pre-bound and protected": the first declaration of
+/// a start tag that tries to rebind them (or to bind another prefix to their
+/// namespaces) must be refused with the matching error
+fn illegal_decl(t: &Tok) -> Option<String> {
+    for (k, v) in &t.attrs {
+        if let Some(p) = k.strip_prefix("xmlns:") {
+            if p == "xml" {
+                if v.as_bytes() != XML_URI {
+                    return Some(format!("{:?}", Error::Namespace(NamespaceError::InvalidXmlPrefixBind(v.as_bytes().to_vec()))));
+                }
+            } else if p == "xmlns" {
+                return Some(format!("{:?}", Error::Namespace(NamespaceError::InvalidXmlnsPrefixBind(v.as_bytes().to_vec()))));
+            } else if v.as_bytes() == XML_URI {
+                return Some(format!("{:?}", Error::Namespace(NamespaceError::InvalidPrefixForXml(p.as_bytes().to_vec()))));
+            } else if v.as_bytes() == XMLNS_URI {
+                return Some(format!("{:?}", Error::Namespace(NamespaceError::InvalidPrefixForXmlns(p.as_bytes().to_vec()))));
+            }
+        }
+    }
+    None
+}
+
 fn decls_of(t: &Tok) -> Scope {
     let mut s = Scope::default();
     for (k, v) in &t.attrs {
         if k == "xmlns" {
             s.decls.push((String::new(), v.clone()));
         } else if let Some(p) = k.strip_prefix("xmlns:") {
-            s.decls.push((p.to_string(), v.clone()));
+            if p != "xml" {
+                // a (legal) re-statement of the xml prefix adds nothing
+                s.decls.push((p.to_string(), v.clone()));
+            }
         }
     }
     s
@@ -498,6 +527,53 @@ fn model_prefixes(stack: &[Scope]) -> BTreeSet<(Vec<u8>, Vec<u8>)> {
     out
 }
 
+/// rename one namespace prefix consistently to a very long one; the tags that use it
+/// are re-rendered from their name and attribute list
+fn stretch_prefix(rng: &mut Rng, toks: &mut [Tok]) -> String {
+    let old = *rng.pick(&["p", "q", "r"]);
+    let new = format!("{}{}", old, "x".repeat(*rng.pick(&[30usize, 254, 255, 256, 300])));
+    let rn = |name: &str| -> String {
+        match name.split_once(':') {
+            Some((p, l)) if p == old => format!("{}:{}", new, l),
+            _ => name.to_string(),
+        }
+    };
+    let mut touched = 0;
+    for t in toks.iter_mut() {
+        if !matches!(t.k, TK::Start | TK::Empty | TK::End) {
+            continue;
+        }
+        let uses = t.name.starts_with(&format!("{}:", old))
+            || t.attrs.iter().any(|(k, _)| k.starts_with(&format!("{}:", old)) || *k == format!("xmlns:{}", old));
+        if !uses {
+            continue;
+        }
+        touched += 1;
+        t.name = rn(&t.name);
+        for (k, _) in t.attrs.iter_mut() {
+            if *k == format!("xmlns:{}", old) {
+                *k = format!("xmlns:{}", new);
+            } else {
+                *k = rn(k);
+            }
+        }
+        let mut raw = String::new();
+        match t.k {
+            TK::End => raw.push_str(&format!("</{}>", t.name)),
+            _ => {
+                raw.push_str(&format!("<{}", t.name));
+                for (k, v) in &t.attrs {
+                    let q = if v.contains('"') { '\'' } else { '"' };
+                    raw.push_str(&format!(" {}={}{}{}", k, q, v, q));
+                }
+                raw.push_str(if t.k == TK::Empty { "/>" } else { ">" });
+            }
+        }
+        t.raw = raw.into_bytes();
+    }
+    format!("long-prefix({} bytes, {} tags) ", new.len(), touched)
+}
+
 fn prefix_of(name: &str) -> &str {
     match name.find(':') {
         Some(i) => &name[..i],
@@ -521,6 +597,40 @@ impl Scenario for Ns {
             empty_of_8: 2,
         };
         p.toks = gen_tree(rng, &o);
+        if rng.chance(1, 12) {
+            p.note = format!("stretched: {}", stretch_tokens(rng, &mut p.toks, true));
+        }
+        if rng.chance(1, 20) {
+            let n = stretch_prefix(rng, &mut p.toks);
+            p.note.push_str(&n);
+        }
+        if rng.chance(1, 15) {
+            let idx: Vec<usize> = (0..p.toks.len()).filter(|&i| matches!(p.toks[i].k, TK::Start | TK::Empty)).collect();
+            if !idx.is_empty() {
+                let i = *rng.pick(&idx);
+                let (k, v) = match rng.below(6) {
+                    0 => ("xmlns:xml", "u1"),
+                    1 => ("xmlns:xmlns", "http://www.w3.org/2000/xmlns/"),
+                    2 => ("xmlns:xmlns", "u2"),
+                    3 => ("xmlns:q", "http://www.w3.org/XML/1998/namespace"),
+                    4 => ("xmlns:r", "http://www.w3.org/2000/xmlns/"),
+                    _ => ("xmlns:xml", "http://www.w3.org/XML/1998/namespace"), // legal
+                };
+                if !p.toks[i].attrs.iter().any(|(ek, _)| ek == k) {
+                    let t = &mut p.toks[i];
+                    let close = if t.k == TK::Empty { 2 } else { 1 };
+                    let mut body = t.raw[..t.raw.len() - close].to_vec();
+                    while body.last().map(|b| is_ws(*b)).unwrap_or(false) {
+                        body.pop();
+                    }
+                    body.extend_from_slice(format!(" {}=\"{}\"", k, v).as_bytes());
+                    body.extend_from_slice(if close == 2 { b"/>" } else { b">" });
+                    t.raw = body;
+                    t.attrs.push((k.to_string(), v.to_string()));
+                    p.note.push_str(" reserved-prefix declaration injected");
+                }
+            }
+        }
         p.sync_doc();
         p.cfg = CFG_DEFAULT | if rng.bool() { CFG_EXPAND_EMPTY } else { 0 };
         p.reader = ReaderKind::Ns;
@@ -551,7 +661,25 @@ impl Scenario for Ns {
         let expand = plan.cfg & CFG_EXPAND_EMPTY != 0;
         let log = new_log(refill_budget(plan.doc.len(), &plan.stream) * 2);
         let mut v: Vec<Violation> = vec![];
+        // probe the fixed prefixes and every prefix that occurs in the document
+        let mut probes: Vec<String> = PROBE_PREFIXES.iter().map(|s| s.to_string()).collect();
+        for t in toks.iter() {
+            let mut add = |p: &str| {
+                if !p.is_empty() && !probes.iter().any(|q| q == p) {
+                    probes.push(p.to_string());
+                }
+            };
+            add(prefix_of(&t.name));
+            for (k, _) in &t.attrs {
+                if let Some(p) = k.strip_prefix("xmlns:") {
+                    add(p);
+                } else {
+                    add(prefix_of(k));
+                }
+            }
+        }
         let mut skips = 0u64;
+        let mut reserved_checks = 0u64;
         let mut mid_skips = 0u64;
         let mut shadow = false;
         let mut decl_seen = false;
@@ -630,6 +758,22 @@ impl Scenario for Ns {
                     } else {
                         (None, rd.read())
                     };
+                    let want_err = match &want {
+                        Want::Start(t) | Want::Empty(t) => illegal_decl(&toks[*t]),
+                        _ => None,
+                    };
+                    if let Some(we) = want_err {
+                        reserved_checks += 1;
+                        match &ev {
+                            Err(e) if format!("{:?}", e) == we => {}
+                            other => v.push(Violation::new(
+                                "C05",
+                                "reserved-prefix-not-protected",
+                                format!("op {}: <{}> carries an illegal declaration, expected error {}, got {:?}", oi, match &want { Want::Start(t) | Want::Empty(t) => toks[*t].name.as_str(), _ => "" }, we, other),
+                            )),
+                        }
+                        return; // nothing is promised about the state after the error
+                    }
                     let ev = match ev {
                         Ok(e) => e,
                         Err(e) => {
@@ -696,7 +840,7 @@ impl Scenario for Ns {
                     }
                 }
                 // ---- probes after every operation ----
-                for pf in PROBE_PREFIXES {
+                for pf in probes.iter().map(|s| s.as_str()) {
                     for attribute in [false, true] {
                         let name = if pf.is_empty() { "n".to_string() } else { format!("{}:n", pf) };
                         let want = model_resolve(&stack, pf, attribute);
@@ -743,6 +887,7 @@ impl Scenario for Ns {
         }
         st.add("op.skip", skips);
         st.add("op.skip_after_children_were_read", mid_skips);
+        st.add("model.reserved_prefix_errors_checked", reserved_checks);
         st.bump(&format!("source.{}", plan.stream.kind.name()));
         if let Err(p) = res {
             panic_to_violation(&p, plan, "ns run", "C03", &mut out);
@@ -805,6 +950,24 @@ impl Scenario for Nest {
             };
             toks.push(t);
         }
+        if rng.chance(1, 12) {
+            p.note = format!("stretched: {}", stretch_tokens(rng, &mut toks, false));
+        }
+        if rng.chance(1, 100) {
+            // many simultaneously open elements with long names: the shared name buffer
+            // grows past 64 KiB before the generated tokens are judged
+            let (d, l) = *rng.pick(&[(70usize, 1000usize), (300, 230), (40, 1700)]);
+            let name = format!("w{}", "n".repeat(l));
+            let mut pre: Vec<Tok> = (0..d)
+                .map(|_| Tok { k: TK::Start, raw: format!("<{}>", name).into_bytes(), name: name.clone(), attrs: vec![] })
+                .collect();
+            pre.append(&mut toks);
+            for _ in 0..d {
+                pre.push(Tok { k: TK::End, raw: format!("</{}>", name).into_bytes(), name: name.clone(), attrs: vec![] });
+            }
+            toks = pre;
+            p.note.push_str(&format!(" wrapped in {} open elements with {}-byte names", d, l + 1));
+        }
         p.toks = toks;
         p.sync_doc();
         let mut cfg = 0u8;
@@ -843,9 +1006,21 @@ impl Scenario for Nest {
         let res = guard(|| {
             let mut rd = Rd::new(&plan.doc, &shared, &plan.stream, plan.reader, plan.cfg, &log, plan.run);
             let mut cfg = plan.cfg;
-            let mut cands: Vec<Vec<String>> = vec![vec![]];
+            // candidate stacks hold interned name ids (cheap to clone and compare)
+            let mut interned: Vec<String> = vec![];
+            let mut intern = |n: &str, tab: &mut Vec<String>| -> u32 {
+                match tab.iter().position(|x| x == n) {
+                    Some(i) => i as u32,
+                    None => {
+                        tab.push(n.to_string());
+                        (tab.len() - 1) as u32
+                    }
+                }
+            };
+            let mut cands: Vec<Vec<u32>> = vec![vec![]];
             let mut ti = 0usize;
             let mut half: Option<String> = None;
+            let _ = &mut intern;
             let mut flipped = false;
             for (oi, op) in plan.ops.iter().enumerate() {
                 log.borrow_mut().cur_op = oi as u32;
@@ -888,8 +1063,9 @@ impl Scenario for Nest {
                             v.push(Violation::new("C04", "wrong-outcome", format!("op {}: expected Start({}), got {}", oi, t.name, got.short())));
                             return;
                         }
+                        let id = intern(&t.name, &mut interned);
                         for c in cands.iter_mut() {
-                            c.push(t.name.clone());
+                            c.push(id);
                         }
                     }
                     TK::Empty => {
@@ -899,8 +1075,9 @@ impl Scenario for Nest {
                                 v.push(Violation::new("C04", "wrong-outcome", format!("op {}: expected expanded Start({}), got {}", oi, t.name, got.short())));
                                 return;
                             }
+                            let id = intern(&t.name, &mut interned);
                             for c in cands.iter_mut() {
-                                c.push(t.name.clone());
+                                c.push(id);
                             }
                             half = Some(t.name.clone());
                         } else {
@@ -930,7 +1107,8 @@ impl Scenario for Nest {
                             Out::Err { dbg, .. } => Some(dbg.as_str()),
                             _ => None,
                         };
-                        let mut next: Vec<Vec<String>> = vec![];
+                        let name_id = intern(&name, &mut interned);
+                        let mut next: Vec<Vec<u32>> = vec![];
                         let mut expectations: Vec<String> = vec![];
                         for c in &cands {
                             if c.len() >= 2 || flipped {
@@ -951,10 +1129,11 @@ impl Scenario for Nest {
                                         expectations.push(want);
                                     }
                                 }
-                                Some(top) => {
+                                Some(top_id) => {
+                                    let top = &interned[*top_id as usize];
                                     let mut popped = c.clone();
                                     popped.pop();
-                                    if *top == name {
+                                    if *top_id == name_id {
                                         expectations.push(format!("End({})", name));
                                         if is_end {
                                             next.push(popped);
@@ -993,7 +1172,7 @@ impl Scenario for Nest {
                                     oi,
                                     String::from_utf8_lossy(&t.raw),
                                     cfg_text(cfg),
-                                    cands.iter().take(4).collect::<Vec<_>>(),
+                                    cands.iter().take(4).map(|c| c.iter().map(|i| lossy_short(&interned[*i as usize])).collect::<Vec<_>>()).collect::<Vec<_>>(),
                                     expectations,
                                     got.short()
                                 ),
@@ -1046,5 +1225,17 @@ impl Scenario for Nest {
         st.note_distinct(plan.hash64(), nontrivial && judged > 0);
         st.fold_digest(plan.run, crate::plan::fnv_bytes(format!("{:?}{}", out.iter().map(|v| &v.detail).collect::<Vec<_>>(), judged).as_bytes()));
         out
+    }
+}
+
+fn lossy_short(s: &str) -> String {
+    if s.len() > 24 {
+        let mut cut = 24;
+        while !s.is_char_boundary(cut) {
+            cut -= 1;
+        }
+        format!("{}…({} bytes)", &s[..cut], s.len())
+    } else {
+        s.to_string()
     }
 }
